@@ -14,7 +14,8 @@ RULE = ("seeded runs; a run = product (local 2/3, simfs 1/3) x a history of 3-10
         "x rpc in {1,2,N-1,N,N+1,1024,absent} x URL spelling), cli-create(image, rpc) next to the "
         "image, delete user cache (all|image), delete adjacent cache (all|image), late-load of a "
         "tree returned by an earlier step, in-place modification by the caller of a tree returned "
-        "earlier (values of metadata variables, attrs), process restart; invariants after every step (tree "
+        "earlier (values of metadata variables, attrs), dropping an earlier tree + a run of the "
+        "garbage collector, process restart; invariants after every step (tree "
         "identical to reference(rpc) incl. pixels and advertised chunk size; product directory "
         "unchanged except adjacent index files created by the CLI; user cache dir holds only "
         "*.index and changes only in create_cache=True steps; no write-type file operation on any "
@@ -42,9 +43,10 @@ def generate(rng, tier, index):
     n = rng.choice(wp["images"])["lines"]
     rpcs = [1, 2, max(n - 1, 1), n, n + 1, 1024, None]
     kinds = ["open", "open", "open", "open", "cli", "rm-user", "rm-adjacent", "late-load",
-             "restart", "scribble"]
+             "restart", "scribble", "forget"]
     # swarm: mask some operation kinds for this run
-    mask = {k for k in ("cli", "rm-user", "rm-adjacent", "late-load", "restart", "scribble")
+    mask = {k for k in ("cli", "rm-user", "rm-adjacent", "late-load", "restart", "scribble",
+                        "forget")
             if rng.random() < 0.3}
     if not local:
         mask.add("cli")
@@ -70,6 +72,8 @@ def generate(rng, tier, index):
             ops.append({"op": "late-load", "back": rng.randint(1, 4)})
         elif k == "scribble":
             ops.append({"op": "scribble", "back": rng.randint(1, 3)})
+        elif k == "forget":
+            ops.append({"op": "forget", "back": rng.randint(1, 3), "load_first": rng.random() < 0.6})
         else:
             ops.append({"op": "restart"})
     return {"world": wp, "ops": ops}
@@ -210,6 +214,36 @@ def execute(plan):
                     scribble(victim[2])
                     history.remove(victim)
                     stats["scribbles"] = stats.get("scribbles", 0) + 1
+            elif kind == "forget":
+                # the caller drops one of the trees it holds and the garbage collector runs (the
+                # collector is otherwise off during a run: when it runs is the simulator's choice);
+                # the trees that are still held must stay loadable
+                alive = [h for h in history if h[3] == epoch]
+                if len(alive) >= 2:
+                    victim = alive[max(len(alive) - op["back"], 0)]
+                    if op.get("load_first"):
+                        try:
+                            tree_diff(refs[victim[1]], victim[2])
+                        except Exception:  # noqa: BLE001
+                            pass
+                    history.remove(victim)
+                    del victim
+                    import gc
+
+                    tree = None
+                    alive = None        # (the list still referred to the dropped tree)
+                    gc.collect()
+                    # the trees that are still held must still load
+                    for st, rpc, kept, ep in [h for h in history if h[3] == epoch][-2:]:
+                        try:
+                            diffs = tree_diff(refs[rpc], kept)
+                        except Exception as e:  # noqa: BLE001
+                            diffs = ["raised " + exc_text(e)]
+                        if diffs:
+                            bad("late-load-differs", "after-forget", step=step, tree_from_step=st,
+                                diffs=diffs)
+                            break
+                    stats["forgets"] = stats.get("forgets", 0) + 1
             elif kind == "restart":
                 world.restart()
                 epoch += 1
